@@ -58,3 +58,6 @@ CFG["manifest"] = dict(
           "(cross-checked by vm_compute on sampled histories); Go harness."),
     technique="Coq proof (refinement to a list-set, finite sweep for the mask table) + differential correspondence on operation histories",
 )
+
+import tables  # constant tables / literals of the current source proved equal to the model's on every run (lib/tables.py)
+CFG["secondary"] = CFG.get("secondary", []) + [tables.C11_TABLES]
